@@ -397,6 +397,12 @@ func (x *Exec) applyAfter(st *State, site string, pre *Snapshot, pos token.Pos) 
 				continue
 			}
 			if cl.Kind == "after.asserts" {
+				// in a ghost assertion old() denotes the state at function entry (as in postconditions)
+				fe2 := x.envFor(st)
+				x.addNamedLocals(fe2, st)
+				if g2, err2 := fe2.evalBool(cl.E); err2 == nil {
+					g = g2
+				}
 				x.emit(st, "assert", "assert@"+site+"."+clauseName(cl, 0), g, x.tagsOf(cl.Tags), "ghost assertion after "+site+": "+cl.Src, pos)
 				continue
 			}
